@@ -94,6 +94,16 @@ pub async fn run_query_grpc_server(
     Ok(())
 }
 
+/// The query-side Flight service exactly as `run_query_grpc_server` assembles it, so that a
+/// simulation can serve it over an in-memory transport instead of a socket.
+#[cfg(cardinalsin_verif)]
+pub fn verif_query_flight_server(
+    query_node: Arc<QueryNode>,
+) -> FlightServiceServer<FlightSqlFlightService> {
+    let flight_sql = Arc::new(FlightSqlGrpcService::new(query_node));
+    FlightServiceServer::new(FlightSqlFlightService::new(flight_sql))
+}
+
 fn status_internal<E: std::fmt::Display>(err: E) -> Status {
     Status::internal(err.to_string())
 }
